@@ -232,24 +232,42 @@ def r2_arguments(ctx, sym, mod):
               "call('f', 3, float('inf'), 'a', limit=float('nan'), names=['x'])")
 
 
-def r3_result(ctx, sym, mod):
-    ctx.rule('R3', "Sandbox._handle_result executed abstractly: without an exception, the value handed back (inside the "
-                   "result proxy, or bare when proxying is off) is the object the student code stored in the target")
+def r3_result(ctx, sym, mod, rule='R3'):
+    ctx.rule(rule, "Sandbox._handle_result executed abstractly: without an exception, the value handed back (inside the "
+                   "result proxy, or bare when proxying is off) is the object the student code stored in the target - "
+                   "also when the same code is observed twice in a row and the second value merely compares equal to "
+                   "the first (1 then True, 2 then 2.0)")
     from .. import symexec
     fn = mod.func('Sandbox._handle_result')
     ctx.analysed_function(mod, fn)
     for proxied in (True, False):
-        rec = symexec.Recorder()
-        value, other = Obj('the-returned-object'), Obj('another-variable')
-        me = symexec.self_obj(mod, 'Sandbox', data={'_': value, 'other': other}, exception=None, result=None)
-        proxy = rec.stub('proxy', fn=lambda v, *a, **k: Obj('proxy', wrapped=v))
-        proxy._fd_callable = True
-        me.attrs['result_proxy_class'] = proxy if proxied else None
-        got, raised = symexec.run(symexec.new_fd(sym, mod), fn, ['_', 4], bound_self=me, what='Sandbox._handle_result')
-        inner = got.attrs.get('wrapped') if proxied and isinstance(got, Obj) else got
-        ctx.check(raised is None and inner is value, 'R3', '_handle_result[%s]' % ('proxied' if proxied else 'bare'),
-                  mod, fn, "the value handed back wraps %r, not the object stored in the target" % (inner,),
-                  "call('f') returns something other than what f returned")
+        for first, second in ((Obj('the-returned-object'), None), (1, True), (2, 2.0), (0, False), ('a', 'a')):
+            rec = symexec.Recorder()
+            other = Obj('another-variable')
+            attrs = dict(symexec.init_literals(mod, 'Sandbox'))
+            context = Obj('context', kind='evaluate', target='_', code='score', id=4, __open__=True)
+            attrs.update(data={'_': first, 'other': other}, exception=None, result=None, _context=[context])
+            me = symexec.self_obj(mod, 'Sandbox', **attrs)
+            proxy = rec.stub('proxy', fn=lambda v, *a, **k: Obj('proxy', wrapped=v, value=v, _actual_value=v))
+            proxy._fd_callable = True
+            me.attrs['result_proxy_class'] = proxy if proxied else None
+            fd = symexec.new_fd(sym, mod, calls={'type': lambda o: proxy if isinstance(o, Obj) and o._name == 'proxy'
+                                                 else type(o)})
+            got, raised = symexec.run(fd, fn, ['_', 4], bound_self=me, what='Sandbox._handle_result')
+            value = first
+            if second is not None and raised is None:
+                me.attrs['data']['_'] = second
+                me.attrs['_context'].append(Obj('context', kind='evaluate', target='_', code='score', id=5,
+                                                __open__=True))
+                got, raised = symexec.run(fd, fn, ['_', 5], bound_self=me, what='Sandbox._handle_result')
+                value = second
+            inner = got.attrs.get('wrapped') if proxied and isinstance(got, Obj) else got
+            same = inner is value or (not isinstance(value, Obj) and type(inner) is type(value) and inner == value)
+            tag = '%s%s' % ('proxied' if proxied else 'bare', '' if second is None else ',%r then %r' % (first, second))
+            ctx.check(raised is None and same, rule, '_handle_result[%s]' % tag, mod, fn,
+                      "the value handed back wraps %r, not the object stored in the target (%r)%s" % (
+                          inner, value, '' if raised is None else ' - raises %s' % raised.kind),
+                      "evaluate('flag') after the student's flag went from 1 to True still shows 1: str() gives '1'")
 
 
 def r4_exception_line(ctx, sym):
